@@ -1,4 +1,5 @@
 import Acra.Model.PES
+import Acra.Lemmas.CRCMpeg
 namespace Acra.Props.C09
 open Acra.Py Acra.Model.MPEGTS Acra.Model.PES Acra.Gen.PES
 
@@ -192,5 +193,62 @@ theorem STANAG_accepts_iff (t : STANAG) (buf : Bytes) (p : PES) (hp : PES.unpack
         all_goals simp
       · rintro ⟨h, _⟩; omega
   · simp [hpid]
+
+/-! ### review additions: unconditional statements (no `hp` hypothesis), checksum against the Spec, witnesses -/
+
+/-- `PES.unpack`, every buffer and prior state: accepted exactly when the transport packet is accepted and its
+    payload holds at least 9 bytes starting with 00 00 01 -/
+theorem PES_accepts_iff (t : PES) (buf : Bytes) :
+    (PES.unpack t buf).2 = .ok () ↔
+      (Pkt.unpack t.pkt buf).2 = .ok () ∧ 9 ≤ (Pkt.unpack t.pkt buf).1.payload.length ∧
+      (Pkt.unpack t.pkt buf).1.payload.take 3 = [0, 0, 1] := by
+  cases hu : Pkt.unpack t.pkt buf with
+  | mk p r =>
+    cases r with
+    | error e => simp [PES.unpack, hu]
+    | ok u => simpa using PES_prefix_iff t buf p hu
+
+/-- `STANAG4609.unpack`, every buffer and prior state, with the checksum as the MISB 0601 word sum of the Spec -/
+theorem STANAG_accepts_iff_all (t : STANAG) (buf : Bytes) :
+    (STANAG.unpack t buf).2 = .ok () ↔
+      (PES.unpack t.pes buf).2 = .ok () ∧
+      (let d := (PES.unpack t.pes buf).1.pesdata
+       (PES.unpack t.pes buf).1.pkt.pid = 0x104 ∧ 36 ≤ d.length ∧ slice d 5 21 = STANAG4609_UNIVERSAL_KEY ∧
+       decInt true (slice d 22 23) = 2 ∧ decInt true (slice d 23 24) = 8 ∧
+       Spec.MPEG.misbChecksum (slice d 5 (d.length - 2)) = decInt true (slice d 34 36)) := by
+  cases hu : PES.unpack t.pes buf with
+  | mk p r =>
+    cases r with
+    | error e => simp [STANAG.unpack, hu]
+    | ok u =>
+      have := STANAG_accepts_iff t buf p hu
+      simpa [Lemmas.CRCMpeg.checksum_eq_spec] using this
+
+/-- review witnesses: transport header sync 0x47, PID 0x104, AFC 1 (payload only) -/
+private def tsHdr : Bytes := [0x47, 0x41, 0x04, 0x10]
+/-- 36 bytes of STANAG 4609 PES data as `STANAG4609.pack` lays them out: counter 3, universal key at 5..20, data tag 2,
+    tag length 8, time 0x0102030405060708, MISB checksum 0x7263 over bytes 5..33 -/
+private def stanagData : Bytes :=
+  [0, 3, 223, 0, 31, 6, 14, 43, 52, 2, 11, 1, 1, 14, 1, 3, 1, 1, 0, 0, 0, 14, 2, 8, 1, 2, 3, 4, 5, 6, 7, 8, 1, 2, 114, 99]
+/-- sync: accepted / wrong sync byte / 3 bytes / AFC 3 without and with the adaptation-field length byte -/
+example : (Pkt.unpack Pkt.fresh (tsHdr ++ [1,2,3])).2 = .ok () ∧ (Pkt.unpack Pkt.fresh (tsHdr ++ [1,2,3])).1.payload = [1,2,3] := ⟨rfl, rfl⟩
+example : (Pkt.unpack Pkt.fresh ([0x46, 0x41, 0x04, 0x10] ++ [1,2,3])).2 = .error .generic := by rfl
+example : (Pkt.unpack Pkt.fresh [0x47, 0x41, 0x04]).2 = .error .struct := by rfl
+example : (Pkt.unpack Pkt.fresh [0x47, 0x41, 0x04, 0x30]).2 ≠ .ok () := by intro h; cases h
+example : (Pkt.unpack Pkt.fresh [0x47, 0x41, 0x04, 0x30, 1, 0, 9, 9]).2 = .ok () ∧ (Pkt.unpack Pkt.fresh [0x47, 0x41, 0x04, 0x30, 1, 0, 9, 9]).1.payload = [9, 9] := ⟨rfl, rfl⟩
+/-- PES prefix: 00 00 01 and 9 bytes accepted, PES data returned whole; 00 00 02 rejected; 8 bytes rejected -/
+example : (PES.unpack PES.fresh (tsHdr ++ [0,0,1,0xE0,0,0, 1,2,3])).2 = .ok () ∧ (PES.unpack PES.fresh (tsHdr ++ [0,0,1,0xE0,0,0, 1,2,3])).1.pesdata = [1,2,3] := ⟨rfl, rfl⟩
+example : (PES.unpack PES.fresh (tsHdr ++ [0,0,2,0xE0,0,0, 1,2,3])).2 = .error .generic := by rfl
+example : (PES.unpack PES.fresh (tsHdr ++ [0,0,1,0xE0,0,0, 1,2])).2 ≠ .ok () := by intro h; cases h
+/-- STANAG: accepted; then one clause broken at a time — PID 0x105, key byte, data tag 3, tag length 7, checksum byte,
+    a protected data byte (checksum no longer matches), 35 bytes of data: each rejected -/
+example : (STANAG.unpack STANAG.fresh (tsHdr ++ [0,0,1,0xFC,0,0] ++ stanagData)).2 = .ok () := by rfl
+example : (STANAG.unpack STANAG.fresh ([0x47, 0x41, 0x05, 0x10] ++ [0,0,1,0xFC,0,0] ++ stanagData)).2 = .error .generic := by rfl
+example : (STANAG.unpack STANAG.fresh (tsHdr ++ [0,0,1,0xFC,0,0] ++ stanagData.set 5 7)).2 = .error .generic := by rfl
+example : (STANAG.unpack STANAG.fresh (tsHdr ++ [0,0,1,0xFC,0,0] ++ stanagData.set 22 3)).2 = .error .generic := by rfl
+example : (STANAG.unpack STANAG.fresh (tsHdr ++ [0,0,1,0xFC,0,0] ++ stanagData.set 23 7)).2 = .error .generic := by rfl
+example : (STANAG.unpack STANAG.fresh (tsHdr ++ [0,0,1,0xFC,0,0] ++ stanagData.set 35 98)).2 = .error .generic := by rfl
+example : (STANAG.unpack STANAG.fresh (tsHdr ++ [0,0,1,0xFC,0,0] ++ stanagData.set 30 0)).2 = .error .generic := by rfl
+example : (STANAG.unpack STANAG.fresh (tsHdr ++ [0,0,1,0xFC,0,0] ++ stanagData.take 35)).2 ≠ .ok () := by intro h; cases h
 
 end Acra.Props.C09
